@@ -137,7 +137,7 @@ STREAMS = {
     "annotations": ("corr_b", "worker", lambda seed, n: (seed + 67, n, {}), "B"),
     "fn_types": ("check_fn", "worker", lambda seed, n: (seed + 71, n, {"static_only": True, "type_args": True, "simple_sigs": True}), "F"),
     # thorough (n = 250): every line of thread 0 is a pre-emption point
-    "conc": ("check_conc", "worker", lambda seed, n: (seed + 73, max(2, min(8, n // 8)), {"exhaustive": n > 100}), "K"),
+    "conc": ("check_conc", "worker", lambda seed, n: (seed + 73, 6 if n <= 100 else 2, {"exhaustive": n > 100}), "K"),
     "classes": ("corr_j", "worker", lambda seed, n: (seed + 61, n, {}), "J"),
     "graph": ("check_graph", "worker", lambda seed, n: (seed + 19, n, {}), "G"),
     "graph_deep": ("check_graph", "worker", lambda seed, n: (seed + 23, n, {"nnodes": 6, "recurse_bias": 0.6}), "G"),
